@@ -21,7 +21,7 @@ func init() { register(&Property{ID: "C19", Gen: c19Gen, Exec: c19Exec}) }
 
 func c19Gen(seed uint64, run int, tier string) *Case {
 	var c *Case
-	switch run % 4 {
+	switch run % 6 {
 	case 0:
 		c = c03Gen(seed, 0, tier) // single-answer stratum of C03
 		c.Stratum = "script/pipelined"
@@ -42,6 +42,29 @@ func c19Gen(seed uint64, run int, tier string) *Case {
 		c.Cfg["callers"] = int64(r.Range(2, 8))
 		c.Cfg["nops"] = int64(r.Range(3, 10))
 		c.Cfg["maxpend"] = int64(r.Pick(0, 2, 64))
+		c.Cfg["mounts"] = int64(r.Pick(1, 1, 2, 3))
+	case 4:
+		r := NewRand(seed)
+		c = &Case{Cfg: map[string]int64{}}
+		genCommon(r, c.Cfg)
+		c.Stratum = "client/shared-client"
+		c.Cfg["wl"] = 4
+		c.Cfg["msize"] = int64(r.Pick(256, 1024, 8192))
+		c.Cfg["dotu"] = int64(r.Intn(2))
+		c.Cfg["callers"] = int64(r.Range(2, 8))
+		c.Cfg["nops"] = int64(r.Range(2, 8))
+		c.Cfg["holdpct"] = int64(r.Pick(0, 30, 60))
+		c.Cfg["clog"] = int64(r.Pick(0, 0, go9p.DbgLogFcalls, go9p.DbgLogPackets, go9p.DbgLogFcalls|go9p.DbgLogPackets))
+	case 5:
+		r := NewRand(seed)
+		c = &Case{Cfg: map[string]int64{}}
+		genCommon(r, c.Cfg)
+		c.Stratum = "logger"
+		c.Cfg["wl"] = 5
+		c.Cfg["cap"] = int64(r.Pick(1, 2, 5, 16))
+		c.Cfg["producers"] = int64(r.Range(2, 4))
+		c.Cfg["filterers"] = int64(r.Range(1, 3))
+		c.Cfg["nops"] = int64(r.Range(3, 40))
 	default:
 		r := NewRand(seed)
 		c = &Case{Cfg: map[string]int64{}}
@@ -75,6 +98,10 @@ func c19Exec(x *Ctx) {
 		c07Exec(x)
 	case 2:
 		c19Ufs(x)
+	case 4:
+		c19Clnt(x)
+	case 5:
+		c19Logger(x)
 	default:
 		c19Churn(x)
 	}
@@ -107,12 +134,18 @@ func c19Ufs(x *Ctx) {
 	nops := int(c.cfg("nops"))
 	rt.Go(rt.SiteSpawn, func() {
 		rt.SetName("main")
-		clnt, _, err := u.Mount(iounit, c.cfg("dotu") != 0, int(c.cfg("seg")), "")
-		if err != nil {
-			return
+		// one to three connections, each shared by some of the callers
+		var clnts []*go9p.Clnt
+		for m := int(c.cfg("mounts")); m > 0 || len(clnts) == 0; m-- {
+			cl, _, err := u.Mount(iounit, c.cfg("dotu") != 0, int(c.cfg("seg")), "")
+			if err != nil {
+				return
+			}
+			clnts = append(clnts, cl)
 		}
 		for ci := 0; ci < n; ci++ {
 			ci := ci
+			clnt := clnts[ci%len(clnts)]
 			rt.Go(rt.SiteSpawn, func() {
 				rt.SetName(fmt.Sprintf("caller%d", ci))
 				r := NewRand(c.Seed ^ uint64(ci+1)*977)
@@ -122,7 +155,21 @@ func c19Ufs(x *Ctx) {
 					return
 				}
 				for k := 0; k < nops; k++ {
-					switch r.Intn(7) {
+					switch r.Intn(9) {
+					case 7:
+						// a walk that goes up again
+						nf := clnt.FidAlloc()
+						if _, err := clnt.Walk(clnt.Root, nf, []string{"shared", "..", "shared", "d1", ".."}); err == nil {
+							clnt.Clunk(nf)
+						}
+					case 8:
+						// rename of the caller's own file, there and back
+						for _, nn := range []string{name + "-r", name} {
+							d := &go9p.Dir{Type: 0xFFFF, Dev: 0xFFFFFFFF, Mode: 0xFFFFFFFF, Atime: 0xFFFFFFFF, Mtime: 0xFFFFFFFF, Length: ^uint64(0),
+								Uidnum: 0xFFFFFFFF, Gidnum: 0xFFFFFFFF, Muidnum: 0xFFFFFFFF, Name: nn}
+							d.Qid.Type, d.Qid.Version, d.Qid.Path = 0xFF, 0xFFFFFFFF, ^uint64(0)
+							clnt.Wstat(f.Fid, d)
+						}
 					case 0:
 						f.WriteAt(pattern(r.Pick(1, 50, int(iounit)), uint64(ci), uint64(k), 0), int64(r.Intn(500)))
 					case 1:
@@ -184,4 +231,157 @@ func c19Churn(x *Ctx) {
 		}
 	})
 	w.RunPhases()
+}
+
+// c19Clnt: the client library shared by many goroutines, each on its own fids, against the scripted server peer
+// (whose goroutines are harness-only); optionally with the client's packet / fcall logging switched on and a
+// goroutine reading the log meanwhile.
+func c19Clnt(x *Ctx) {
+	c := x.C
+	msize := uint32(c.cfg("msize"))
+	clog := int(c.cfg("clog"))
+	go9p.DefaultDebuglevel = clog
+	go9p.DefaultLogger = nil
+	if clog != 0 {
+		go9p.DefaultLogger = go9p.NewLogger(16)
+	}
+	cs, cc := rt.NewPipePair(0, "srv", "clnt")
+	cc.In.Seg, cs.In.Seg = int(c.cfg("seg")), int(c.cfg("seg"))
+	peer := NewSrvPeer(x, cs, msize, c.cfg("dotu") != 0)
+	peer.NoDupCheck = true
+	holdpct := int(c.cfg("holdpct"))
+	peer.Handle = func(p *SrvPeer, r *PReq) {
+		rep := StdReply(r.M, p.Msize, p.Dotu)
+		if r.M.Type == Tversion {
+			p.Dotu = rep.Version == "9P2000.u"
+			p.Send(r, Encode(rep, false))
+			return
+		}
+		if r.M.Type == Tread && r.M.Offset >= 1<<40 {
+			p.Send(r, Encode(rep, p.Dotu)) // Tag interface: answered in arrival order
+			return
+		}
+		if r.M.Type != Tattach && holdpct > 0 && rt.Choose(100) < holdpct {
+			r.Hold = true
+		}
+		p.SendLater(r, Encode(rep, p.Dotu))
+	}
+	peer.Start()
+	n, nops := int(c.cfg("callers")), int(c.cfg("nops"))
+	rt.Go(rt.SiteSpawn, func() {
+		rt.SetName("main")
+		clnt, err := go9p.Connect(cc, msize, c.cfg("dotu") != 0)
+		if err != nil {
+			return
+		}
+		root, err := clnt.Attach(nil, go9p.OsUsers.Uid2User(0), "")
+		if err != nil {
+			return
+		}
+		clnt.Root = root
+		if clog != 0 {
+			rt.Go(rt.SiteSpawn, func() {
+				rt.SetName("log-reader")
+				for k := 0; k < 4; k++ {
+					for _, l := range clnt.Log.Filter(clnt, clog&^3|go9p.DbgLogFcalls|go9p.DbgLogPackets) {
+						_ = l.Type
+					}
+					rt.Yield(rt.SiteActor)
+				}
+			})
+		}
+		for ci := 0; ci < n; ci++ {
+			ci := ci
+			rt.Go(rt.SiteSpawn, func() {
+				rt.SetName(fmt.Sprintf("caller%d", ci))
+				r := NewRand(c.Seed ^ uint64(ci+1)*7919)
+				fid := clnt.FidAlloc()
+				if _, err := clnt.Walk(clnt.Root, fid, []string{fmt.Sprintf("f%d", ci)}); err != nil {
+					return
+				}
+				if err := clnt.Open(fid, go9p.ORDWR); err != nil {
+					return
+				}
+				for k := 0; k < nops; k++ {
+					switch r.Intn(6) {
+					case 0:
+						clnt.Read(fid, uint64(k*100), uint32(r.Pick(0, 1, 40, int(msize)/2)))
+					case 1:
+						clnt.Write(fid, pattern(r.Pick(1, 9, 60), uint64(fid.Fid), uint64(k), 7), uint64(k))
+					case 2:
+						clnt.Stat(fid)
+					case 3:
+						nf := clnt.FidAlloc()
+						if _, err := clnt.Walk(fid, nf, []string{"x"}); err == nil {
+							clnt.Clunk(nf)
+						}
+					case 4:
+						// pipelined reads on a shared tag
+						ch := make(chan *go9p.Req, 8)
+						tag := clnt.TagAlloc(ch)
+						pending := 0
+						for j := 0; j < 3; j++ {
+							if tag.Read(fid, uint64(1)<<40|uint64(ci)<<20|uint64(k*8+j), 8) == nil {
+								pending++
+							}
+						}
+						for ; pending > 0; pending-- {
+							<-ch
+						}
+						clnt.TagFree(tag)
+					case 5:
+						f := go9p.FidFile(fid, 0)
+						f.ReadAt(make([]byte, 30), int64(k))
+					}
+				}
+				clnt.Clunk(fid)
+			})
+		}
+	})
+	for {
+		if !x.Run() {
+			return
+		}
+		var held []*PReq
+		for _, r := range peer.Reqs {
+			if r.Hold {
+				held = append(held, r)
+			}
+		}
+		if len(held) == 0 {
+			break
+		}
+		held[x.S.Choose(len(held))].Hold = false
+	}
+	x.FaultN("seg-split", cc.In.Splits+cs.In.Splits)
+}
+
+// c19Logger: one Logger used from several goroutines at once.
+func c19Logger(x *Ctx) {
+	c := x.C
+	lg := go9p.NewLogger(int(c.cfg("cap")))
+	owners := []interface{}{0, 1, 2}
+	nops := int(c.cfg("nops"))
+	for pi := int(c.cfg("producers")); pi > 0; pi-- {
+		pi := pi
+		rt.Go(rt.SiteSpawn, func() {
+			rt.SetName("producer")
+			for k := 0; k < nops; k++ {
+				lg.Log(pi*1000+k, owners[(pi+k)%3], 1<<uint(k%3))
+			}
+		})
+	}
+	for fi := int(c.cfg("filterers")); fi > 0; fi-- {
+		fi := fi
+		rt.Go(rt.SiteSpawn, func() {
+			rt.SetName("filterer")
+			for k := 0; k < nops/2+1; k++ {
+				for _, l := range lg.Filter(owners[(fi+k)%3], (k%7)+1) {
+					_, _, _ = l.Data, l.Owner, l.Type
+				}
+				rt.Yield(rt.SiteActor)
+			}
+		})
+	}
+	x.Run()
 }
